@@ -686,6 +686,26 @@ Section LateIface.
       else WFm ph seen rest
     end.
 
+  (* D44: the same, but a packet of the object that arrives BEFORE the first FDT packet may carry the close-object flag
+     whatever has been received: the flag is ignored while the object has no writer *)
+  Fixpoint WFm' (ph : bool) (seen : list (N * N)) (evs : list apkt) : Prop :=
+    match evs with
+    | [] => ph = true /\ cov seen
+    | p :: rest =>
+      if a_toi p =? 0 then FOk p /\ WFm' true seen rest
+      else if a_toi p =? toi then
+        (if ph then gen p /\ (a_close_obj p = true -> cov (pid p :: seen)) else pktpre p) /\ WFm' ph (pid p :: seen) rest
+      else WFm' ph seen rest
+    end.
+
+  Lemma wfm_weaken : forall evs ph seen, WFm ph seen evs -> WFm' ph seen evs.
+  Proof.
+    induction evs as [|p rest IH]; intros ph seen H; [exact H|]. cbn [WFm WFm'] in *.
+    destruct (a_toi p =? 0); [destruct H as [H1 H2]; split; [exact H1|exact (IH _ _ H2)]|].
+    destruct (a_toi p =? toi); [|exact (IH _ _ H)].
+    destruct H as (H1 & H2 & H3). split; [|exact (IH _ _ H3)]. destruct ph; [split; assumption|exact H1].
+  Qed.
+
   Definition StM (ph : bool) (seen : list (N * N)) (r : recv) (c : ctx) : Prop :=
     Base r c /\
     if ph then HdOk (rv_fdt_current r) /\ ((MSt r c /\ seen = []) \/ MRc seen r c \/ MDn r c)
@@ -694,12 +714,12 @@ Section LateIface.
   Lemma stm_closed ph seen r c p : StM ph seen r c -> StM ph seen (closed_of p r) c.
   Proof. intros H. destruct (a_close_sess p); exact H. Qed.
 
-  Lemma wfm_fok : forall evs ph seen, WFm ph seen evs -> Forall (fun p => a_toi p = 0 -> FOk p) evs.
+  Lemma wfm_fok : forall evs ph seen, WFm' ph seen evs -> Forall (fun p => a_toi p = 0 -> FOk p) evs.
   Proof.
-    induction evs as [|p rest IH]; intros ph seen H; [constructor|]. cbn [WFm] in H.
+    induction evs as [|p rest IH]; intros ph seen H; [constructor|]. cbn [WFm'] in H.
     destruct (N.eqb_spec (a_toi p) 0) as [Z|Z].
     - destruct H as [H1 H2]. constructor; [intros _; exact H1|exact (IH _ _ H2)].
-    - constructor; [intros X; contradiction|]. destruct (a_toi p =? toi); [destruct H as (_ & _ & H)|]; exact (IH _ _ H).
+    - constructor; [intros X; contradiction|]. destruct (a_toi p =? toi); [destruct H as (_ & H)|]; exact (IH _ _ H).
   Qed.
 
   Lemma common_of r c : Base r c -> HdOk (rv_fdt_current r) -> Common now inst r c.
@@ -735,11 +755,11 @@ Section LateIface.
     specialize (IH r1 c1 B1 H1 Dn1 Fr). destruct (recv_run E parse_fdt cfg r1 (map push rest) c1) as [[xs r2] c2]. exact IH.
   Qed.
 
-  Lemma run_main : forall evs ph seen r c, StM ph seen r c -> WFm ph seen evs ->
+  Lemma run_main : forall evs ph seen r c, StM ph seen r c -> WFm' ph seen evs ->
     let '(_, r', c') := recv_run E parse_fdt cfg r (map push evs) c in RI r' c' /\ EDisj r' /\ MDn r' c'.
   Proof.
     induction evs as [|p rest IH]; intros ph seen r c St W.
-    { cbn [map recv_run]. cbn [WFm] in W. destruct W as [-> Cv]. destruct St as (B & Hd & [[M ->]|[M|M]]).
+    { cbn [map recv_run]. cbn [WFm'] in W. destruct W as [-> Cv]. destruct St as (B & Hd & [[M ->]|[M|M]]).
       - exfalso. destruct (I_attach 0 ctx0 (conj eq_refl eq_refl)) as (o0 & c0 & _ & S0 & L0 & _). exact (I_notcov o0 c0 [] S0 L0 Cv).
       - exfalso. destruct M as (o & cs & _ & _ & _ & _ & HS & Lv & _). exact (I_notcov o cs seen HS Lv Cv).
       - destruct B as (R & D & _). split; [exact R|split; assumption]. }
@@ -747,8 +767,8 @@ Section LateIface.
     assert (DoneCase : ph = true -> MDn r c ->
               let '(_, r', c') := recv_run E parse_fdt cfg r (map push (p :: rest)) c in RI r' c' /\ EDisj r' /\ MDn r' c').
     { intros -> Dn. destruct St as (B & Hd & _). apply run_done_any; try assumption. exact (wfm_fok _ _ _ W). }
-    cbn [WFm] in W.
-    assert (K : exists ph' seen', WFm ph' seen' rest /\
+    cbn [WFm'] in W.
+    assert (K : exists ph' seen', WFm' ph' seen' rest /\
                 let '(x, r1, c1) := recv_step E parse_fdt cfg r (RvPush p now) c in StM ph' seen' r1 c1 \/ (ph = true /\ MDn r c)).
     { destruct (N.eqb_spec (a_toi p) 0) as [Z|Z].
       - (* an FDT packet *)
@@ -764,11 +784,11 @@ Section LateIface.
         + destruct St0 as (Hcur & [[M ->]|M]); [left; split; [exact (H2 M)|reflexivity]|right; exact (H5 seen Hcur M)].
       - destruct (N.eqb_spec (a_toi p) toi) as [T|T].
         + (* a packet of the object *)
-          destruct W as (Gp & Cl & W'). exists ph, (pid p :: seen). split; [exact W'|]. rewrite (step_is_push E parse_fdt cfg now r c p Z).
+          destruct W as (GC & W'). exists ph, (pid p :: seen). split; [exact W'|]. rewrite (step_is_push E parse_fdt cfg now r c p Z).
           pose proof (stm_closed ph seen r c p St) as St0. destruct St0 as (B0 & St0).
           pose proof (push_obj_iso E cfg p now _ c (proj1 B0) (proj1 (proj2 B0))) as Iso.
           destruct ph.
-          * destruct St0 as (Hd & [[M ->]|[M|M]]).
+          * destruct GC as (Gp & Cl). destruct St0 as (Hd & [[M ->]|[M|M]]).
             -- pose proof (m_push_first E cfg content toi now inst f SP LV gen pid cov I_state I_writer I_nc I_step I_attach
                              _ c p M (common_of _ c B0 Hd) T Gp Cl) as H.
                destruct (push_obj E cfg p now (closed_of p r) c) as [[x r1] c1].
@@ -781,7 +801,7 @@ Section LateIface.
                left. split; [exact B1|]. split; [exact Hd1|]. right. exact H.
             -- destruct (push_obj E cfg p now (closed_of p r) c) as [[x r1] c1]. right. split; [reflexivity|].
                destruct (a_close_sess p); exact M.
-          * destruct St0 as (Hcur & [[M ->]|M]).
+          * pose proof GC as Gp. destruct St0 as (Hcur & [[M ->]|M]).
             -- pose proof (pre_first _ c p B0 Hcur M Gp) as H.
                destruct (push_obj E cfg p now (closed_of p r) c) as [[x r1] c1].
                destruct H as (B1 & Hc1 & M1). left. split; [exact B1|]. split; [exact Hc1|]. right. exact M1.
@@ -816,9 +836,76 @@ Section LateIface.
 
   (* the session theorem, over the interface: any interleaving of FDT copies, packets of the object and packets of other
      non-zero TOIs, in the inductive form WFm *)
-  Theorem late_multi_wf evs : WFm false [] evs ->
+  Theorem late_multi_wf' evs : WFm' false [] evs ->
     let '(_, r, c) := recv_run E parse_fdt cfg recv0 (map push evs) ctx0 in RI r c /\ EDisj r /\ MDn r c.
   Proof. intros W. exact (run_main evs false [] recv0 ctx0 StM0 W). Qed.
+
+  Theorem late_multi_wf evs : WFm false [] evs ->
+    let '(_, r, c) := recv_run E parse_fdt cfg recv0 (map push evs) ctx0 in RI r c /\ EDisj r /\ MDn r c.
+  Proof. intros W. exact (late_multi_wf' evs (wfm_weaken _ _ _ W)). Qed.
+
+  (* D44, from list premises: [pre] holds no FDT packet, its packets of the object are in the form pktpre (any flag);
+     [pf] is the first FDT packet; in [post] the FDT packets are good copies, the packets of the object are genuine and
+     carry the flag only once the object is covered with it; in the end the symbols cover the object *)
+  Lemma build_wfm_pre : forall pre seen rest,
+    Forall (fun p => a_toi p <> 0) pre ->
+    Forall (fun p => a_toi p = toi -> pktpre p) pre ->
+    WFm' false (List.rev (map pid (mine toi pre)) ++ seen) rest ->
+    WFm' false seen (pre ++ rest).
+  Proof.
+    induction pre as [|p pre IH]; intros seen rest Fz Fp W; [exact W|].
+    pose proof (Forall_inv Fz) as Z; pose proof (Forall_inv_tail Fz) as Fz'.
+    pose proof (Forall_inv Fp) as P; pose proof (Forall_inv_tail Fp) as Fp'. cbn beta in Z, P.
+    cbn [app WFm']. unfold mine in W. cbn [filter] in W. fold (mine toi pre) in W.
+    destruct (N.eqb_spec (a_toi p) 0) as [Z0|_]; [contradiction|].
+    destruct (N.eqb_spec (a_toi p) toi) as [T|T].
+    - split; [exact (P T)|]. apply IH; try assumption. cbn [map List.rev] in W. rewrite <- app_assoc in W. exact W.
+    - apply IH; assumption.
+  Qed.
+
+  Lemma build_wfm_post : forall post seen,
+    Forall (fun p => a_toi p = 0 -> FOk p) post ->
+    Forall (fun p => a_toi p = toi -> gen p) post ->
+    (forall a p b, mine toi post = a ++ p :: b -> a_close_obj p = true -> cov (map pid (a ++ [p]) ++ seen)) ->
+    cov (map pid (mine toi post) ++ seen) ->
+    WFm' true seen post.
+  Proof.
+    induction post as [|p post IH]; intros seen F0 Fg Cl Cv; [split; [reflexivity|exact Cv]|].
+    pose proof (Forall_inv F0) as F0p; pose proof (Forall_inv_tail F0) as F0r.
+    pose proof (Forall_inv Fg) as Fgp; pose proof (Forall_inv_tail Fg) as Fgr. cbn beta in F0p, Fgp.
+    cbn [WFm']. unfold mine in Cl, Cv. cbn [filter] in Cl, Cv. fold (mine toi post) in Cl, Cv.
+    destruct (N.eqb_spec (a_toi p) 0) as [Z|Z].
+    - split; [exact (F0p Z)|]. destruct (N.eqb_spec (a_toi p) toi) as [T|_]; [congruence|]. apply IH; assumption.
+    - destruct (N.eqb_spec (a_toi p) toi) as [T|T]; [|apply IH; assumption].
+      split; [split; [exact (Fgp T)|]|].
+      + intros Hc. exact (Cl [] p (mine toi post) eq_refl Hc).
+      + apply IH; try assumption.
+        * intros a q b Eq Hq. specialize (Cl (p :: a) q b). rewrite Eq in Cl. specialize (Cl eq_refl Hq).
+          eapply I_cov_incl; [exact Cl|]. cbn [app map]. intros x [<-|Hx]; [apply in_or_app; right; left; reflexivity|].
+          apply in_app_or in Hx. apply in_or_app. destruct Hx as [Hx|Hx]; [left; exact Hx|right; right; exact Hx].
+        * eapply I_cov_incl; [exact Cv|]. cbn [map app]. intros x [<-|Hx]; [apply in_or_app; right; left; reflexivity|].
+          apply in_app_or in Hx. apply in_or_app. destruct Hx as [Hx|Hx]; [left; exact Hx|right; right; exact Hx].
+  Qed.
+
+  Theorem late_multi_delivers_any_flag pre pf post :
+    Forall (fun p => a_toi p <> 0) pre ->
+    Forall (fun p => a_toi p = toi -> pktpre p) pre ->
+    a_toi pf = 0 -> FOk pf ->
+    Forall (fun p => a_toi p = 0 -> FOk p) post ->
+    Forall (fun p => a_toi p = toi -> gen p) post ->
+    (forall a p b, mine toi post = a ++ p :: b -> a_close_obj p = true -> cov (map pid (mine toi pre ++ a ++ [p]))) ->
+    cov (map pid (mine toi pre ++ mine toi post)) ->
+    let '(_, r, c) := recv_run E parse_fdt cfg recv0 (map push (pre ++ pf :: post)) ctx0 in RI r c /\ EDisj r /\ MDn r c.
+  Proof.
+    intros Fz Fp Zf Hf F0 Fg Cl Cv. apply late_multi_wf'. apply build_wfm_pre; try assumption.
+    cbn [WFm']. rewrite Zf. cbn [N.eqb]. split; [exact Hf|]. rewrite app_nil_r.
+    assert (Inc : forall l, incl (map pid (mine toi pre ++ l)) (map pid l ++ List.rev (map pid (mine toi pre)))).
+    { intros l x Hx. rewrite map_app in Hx. apply in_app_or in Hx. apply in_or_app.
+      destruct Hx as [Hx|Hx]; [right; apply in_rev; rewrite rev_involutive; exact Hx|left; exact Hx]. }
+    apply build_wfm_post; try assumption.
+    - intros a p b Eq Hp. eapply I_cov_incl; [exact (Cl a p b Eq Hp)|apply Inc].
+    - eapply I_cov_incl; [exact Cv|apply Inc].
+  Qed.
 
   (* from list premises to WFm: every FDT packet is a good copy, at least one comes; every packet of the object is fit to
      arrive before or after the instance and carries no close-object flag; the symbols cover the object *)
@@ -927,6 +1014,34 @@ Section NoCodeLate.
     - intros o c seen p. apply (ncj_push E cfg oti content toi md5 al as_ nal n Hfec He Hb HL Hu64 Hpart Htoi Hnice f Htl).
     - intros fid o c seen. apply (attach_pre E cfg oti content toi md5 al as_ nal n He Hb HL Hu64 Hpart Htoi Hnice Hacc inst f Hfind Hce Htl Hmd5).
   Qed.
+
+  Lemma nocode_late_core_any_flag pre pf post :
+    Forall (fun p => a_toi p <> 0) pre ->
+    Forall (fun p => a_toi p = toi -> pktpren p) pre ->
+    a_toi pf = 0 -> FOk cfg now id inst foti d pf ->
+    Forall (fun p => a_toi p = 0 -> FOk cfg now id inst foti d p) post ->
+    Forall (fun p => a_toi p = toi -> genn p) post ->
+    (forall a p b, mine toi post = a ++ p :: b -> a_close_obj p = true -> covn (map pid_of (mine toi pre ++ a ++ [p]))) ->
+    covn (map pid_of (mine toi pre ++ mine toi post)) ->
+    let '(_, r, c) := recv_run E parse_fdt cfg recv0 (map (fun p => RvPush p now) (pre ++ pf :: post)) ctx0 in
+    RI r c /\ EDisj r /\ MDone cfg content toi f r c.
+  Proof.
+    intros Fz Fp Zf Hf F0 Fg Cl Cv.
+    refine (late_multi_delivers_any_flag E parse_fdt cfg content toi now Htoi id inst f Hfind SPn C02Full.LiveAll genn pid_of covn
+              _ _ _ _ _ (covered_incl' al as_ nal n) _ (ncm_fdtid cfg oti content toi md5 al as_ nal n) PSn pktpren _ _ _ _ _
+              foti d Hparse pre pf post Fz Fp Zf Hf F0 Fg Cl Cv).
+    - intros o c. apply nci_state.
+    - intros o c. apply nci_writer.
+    - intros o c p. apply (nci_nc E cfg oti content toi md5 al as_ nal n He Hb HL Hu64).
+    - intros o c seen p. apply (nci_step E cfg oti content toi md5 al as_ nal n Hfec He Hb HL Hu64 Hpart Hnice).
+    - intros o c seen. apply (nci_notcov cfg oti content toi md5 al as_ nal n He Hb HL Hu64 Hpart).
+    - intros fid c. apply (nci_attach E cfg oti content toi md5 al as_ nal n He Hb HL Hu64 Hpart Hacc inst f Hfind Hce Hfo Htl Hmd5).
+    - intros o. apply C02Session.ps_state.
+    - intros p P. exact (proj1 P).
+    - intros c p. apply (ncj_first E cfg oti content toi md5 al as_ nal n Hfec He Hb HL Hu64 Hpart Htoi Hnice f Htl).
+    - intros o c seen p. apply (ncj_push E cfg oti content toi md5 al as_ nal n Hfec He Hb HL Hu64 Hpart Htoi Hnice f Htl).
+    - intros fid o c seen. apply (attach_pre E cfg oti content toi md5 al as_ nal n He Hb HL Hu64 Hpart Htoi Hnice Hacc inst f Hfind Hce Htl Hmd5).
+  Qed.
 End NoCodeLate.
 
 (* an FDT packet of the carousel: a good copy of the instance, not expired on arrival *)
@@ -968,7 +1083,7 @@ Proof.
                  /\ a_close_obj p = false) evs).
   { apply forall_mine. apply (proj1 (forall_mine _ toi evs)) in G'. apply (proj1 (forall_mine _ toi evs)) in Ib.
     apply forall_mine. rewrite Forall_forall in *. intros p Hp Ht. destruct (Ib p Hp Ht) as (I1 & I2 & I3).
-    pose proof (G' p Hp Ht) as Gp. split; [|split; [exact Gp|exact I3]]. split; [exact Ht|]. split; [exact I1|]. split; [exact I2|split; assumption]. }
+    pose proof (G' p Hp Ht) as Gp. split; [|split; [exact Gp|exact I3]]. split; [exact Ht|]. split; [exact I1|]. split; [exact I2|exact Gp]. }
   pose proof (nocode_late_core E parse_fdt cfg oti content toi md5 al as_ nal n now Hfec He Hb HL Hu Hpart Htoi Nc Hacc
                 id inst f F1 F2 F3 F4 F5 foti d Hparse evs F0 Hf Ft) as D.
   assert (D' : let '(_, r, c) := recv_run E parse_fdt cfg recv0 (map (fun p => RvPush p now) evs) ctx0 in
@@ -1046,6 +1161,34 @@ Section RSLate.
     - intros o c seen p. apply (rsj_push E cfg oti content rep toi md5 al as_ nal n Hfec He Hb HL Hu64 Hpart Htoi Hsound Hnice f Htl).
     - intros fid o c seen. apply (rattach_pre E cfg oti content rep toi md5 al as_ nal n He Hb HL Hu64 Hpart Htoi Hnice Hacc inst f Hfind Hce Htl Hmd5).
   Qed.
+
+  Lemma rs_late_core_any_flag pre pf post :
+    Forall (fun p => a_toi p <> 0) pre ->
+    Forall (fun p => a_toi p = toi -> pktprer' p) pre ->
+    a_toi pf = 0 -> FOk cfg now id inst foti d pf ->
+    Forall (fun p => a_toi p = 0 -> FOk cfg now id inst foti d p) post ->
+    Forall (fun p => a_toi p = toi -> genr' p) post ->
+    (forall a p b, mine toi post = a ++ p :: b -> a_close_obj p = true -> covr (map (rs_pid oti) (mine toi pre ++ a ++ [p]))) ->
+    covr (map (rs_pid oti) (mine toi pre ++ mine toi post)) ->
+    let '(_, r, c) := recv_run E parse_fdt cfg recv0 (map (fun p => RvPush p now) (pre ++ pf :: post)) ctx0 in
+    RI r c /\ EDisj r /\ MDone cfg content toi f r c.
+  Proof.
+    intros Fz Fp Zf Hf F0 Fg Cl Cv.
+    refine (late_multi_delivers_any_flag E parse_fdt cfg content toi now Htoi id inst f Hfind SPr C02RS.LiveAll genr' (rs_pid oti) covr
+              _ _ _ _ _ (rsi_cov_incl oti al as_ nal n) _ (rsm_fdtid E cfg oti content rep toi md5 al as_ nal n) PreR' pktprer' _ _ _ _ _
+              foti d Hparse pre pf post Fz Fp Zf Hf F0 Fg Cl Cv).
+    - intros o c. apply rsi_state.
+    - intros o c. apply rsi_writer.
+    - intros o c p. apply (rsi_nc E cfg oti content rep toi md5 al as_ nal n); assumption.
+    - intros o c seen p. apply (rsi_step E cfg oti content rep toi md5 al as_ nal n Hfec He Hb HL Hu64 Hpart Hsound HM Hnice).
+    - intros o c seen. apply (rsi_notcov E cfg oti content rep toi md5 al as_ nal n); assumption.
+    - intros fid c. apply (rsi_attach E cfg oti content rep toi md5 al as_ nal n He Hb HL Hu64 Hpart Htoi Hacc inst f Hfind Hce Hfo Htl Hmd5).
+    - intros o. apply pr_state.
+    - intros p P. exact (proj1 P).
+    - intros c p. apply (rsj_first E cfg oti content rep toi md5 al as_ nal n Hfec He Hb HL Hu64 Hpart Htoi Hsound Hnice f Htl).
+    - intros o c seen p. apply (rsj_push E cfg oti content rep toi md5 al as_ nal n Hfec He Hb HL Hu64 Hpart Htoi Hsound Hnice f Htl).
+    - intros fid o c seen. apply (rattach_pre E cfg oti content rep toi md5 al as_ nal n He Hb HL Hu64 Hpart Htoi Hnice Hacc inst f Hfind Hce Htl Hmd5).
+  Qed.
 End RSLate.
 
 Lemma rs_late_ft oti content rep toi al as_ nal n evs :
@@ -1056,7 +1199,7 @@ Lemma rs_late_ft oti content rep toi al as_ nal n evs :
 Proof.
   intros G Ib. apply (proj1 (forall_mine _ toi evs)) in G. apply (proj1 (forall_mine _ toi evs)) in Ib.
   rewrite Forall_forall in *. intros p Hp Ht. destruct (Ib p Hp Ht) as (I1 & I2 & I3).
-  pose proof (G p Hp Ht) as Gp. split; [|split; [exact Gp|exact I3]]. split; [exact Ht|]. split; [exact I1|]. split; [exact I2|split; assumption].
+  pose proof (G p Hp Ht) as Gp. split; [|split; [exact Gp|exact I3]]. split; [exact Ht|]. split; [exact I1|]. split; [exact I2|exact Gp].
 Qed.
 
 Theorem rs_late_among_others_delivers E parse_fdt cfg oti content rep toi md5 now id foti d inst evs :
@@ -1138,6 +1281,166 @@ Qed.
 Print Assumptions rs_late_among_others_delivers.
 Print Assumptions fq_late_among_others_delivers.
 
+(* ---- D44: the three theorems above without "no close-object flag before the FDT instance" ----
+   The stream is split at its FIRST FDT packet: pre ++ pf :: post, no TOI-0 packet in pre.  The packets of the object in
+   pre (mine1) carry EXT_FTI = (oti, L), no EXT_CENC and ANY close-object flag (ignored: no writer yet); those in post
+   (mine2) are genuine in any form (with or without EXT_FTI) and carry the flag only once mine1 and the packets up to it
+   are recoverable (close_flag_ok_after); packets of other non-zero TOIs are arbitrary. *)
+Lemma pktpre_of_mine (P G : apkt -> Prop) toi (oti : roti) L pre :
+  Forall G (filter (fun p => a_toi p =? toi) pre) ->
+  Forall (fun p => a_oti p = Some (oti, L) /\ a_cenc p = None) (filter (fun p => a_toi p =? toi) pre) ->
+  (forall p, a_toi p = toi -> a_oti p = Some (oti, L) -> a_cenc p = None -> G p -> P p) ->
+  Forall (fun p => a_toi p = toi -> P p) pre.
+Proof.
+  intros HG HI K. apply (proj1 (forall_mine _ toi pre)) in HG. apply (proj1 (forall_mine _ toi pre)) in HI.
+  rewrite Forall_forall in *. intros p Hp Ht. destruct (HI p Hp Ht) as [I1 I2]. exact (K p Ht I1 I2 (HG p Hp Ht)).
+Qed.
+
+Theorem nocode_late_among_others_delivers_any_flag_before_fdt E parse_fdt cfg oti content toi md5 now id foti d inst pre pf post :
+  let L := lenN_ content in
+  nocode_ok oti L -> toi <> 0 -> parse_fdt d = Some inst ->
+  fdt_entry_for (fi_files inst) (fi_oti inst) toi oti L md5 ->
+  writer_accepts E toi -> writes_succeed E toi -> md5_good E content md5 ->
+  L <= cf_max_cache cfg -> nb_blocks_of oti L <= 4097 ->
+  Forall (fun p => a_toi p <> 0) pre ->
+  fdt_copy cfg inst now id foti d pf ->
+  Forall (fun p => a_toi p = 0 -> fdt_copy cfg inst now id foti d p) post ->
+  let mine1 := filter (fun p => a_toi p =? toi) pre in
+  let mine2 := filter (fun p => a_toi p =? toi) post in
+  Forall (fun p => genuine_pkt oti content p = true) (mine1 ++ mine2) ->
+  Forall (fun p => a_oti p = Some (oti, L) /\ a_cenc p = None) mine1 ->
+  close_flag_ok_after (recoverable oti L) mine1 mine2 ->
+  recoverable oti L (mine1 ++ mine2) = true ->
+  let '(_, r, c) := recv_run E parse_fdt cfg recv0 (map (fun p => RvPush p now) (pre ++ pf :: post)) ctx0 in
+  multi_delivered cfg inst content toi r c.
+Proof.
+  intros L (Hfec & He & Hb & HL & Hu) Htoi Hparse (f & F1 & F2 & F3 & F4 & F5) Hacc Hwr Hmd5 Hmax Hn Fz Hpf F0 m1 m2 G Ib Cl Rec.
+  destruct (partition_of oti L) as [[[al as_] nal] n] eqn:Hpart. unfold partition_of in Hpart.
+  assert (Hnb : nb_blocks_of oti L = n) by (unfold nb_blocks_of; rewrite Hpart; reflexivity).
+  assert (Nc : C02Full.Nice2 E content (toi, 0%nat) md5 (cf_max_cache cfg) n).
+  { split; [split; [exact Hwr|exact Hmd5]|]. split; [exact Hmax|]. rewrite <- Hnb. exact Hn. }
+  assert (Cov : forall l, recoverable oti L l = true -> C02Full.covered al as_ nal n (map pid_of l)).
+  { intros l H. apply recoverable_covered. unfold recoverable, source_ks, partition_of in H. rewrite Hpart in H. exact H. }
+  pose proof (genuine_pkt_spec _ _ _ _ _ _ _ Hpart G) as G'. apply Forall_app in G'. destruct G' as [G1 G2].
+  assert (Zf : a_toi pf = 0) by (destruct Hpf as ((Hz & _) & _); exact Hz).
+  pose proof (nocode_late_core_any_flag E parse_fdt cfg oti content toi md5 al as_ nal n now Hfec He Hb HL Hu Hpart Htoi Nc Hacc
+                id inst f F1 F2 F3 F4 F5 foti d Hparse pre pf post Fz) as D.
+  assert (D' : let '(_, r, c) := recv_run E parse_fdt cfg recv0 (map (fun p => RvPush p now) (pre ++ pf :: post)) ctx0 in
+               RI r c /\ EDisj r /\ MDone cfg content toi f r c).
+  { apply D; try assumption.
+    - apply (pktpre_of_mine _ (C02Full.genuine oti content al as_ nal n) toi oti L pre G1 Ib).
+      intros p Ht I1 I2 Gp. split; [exact Ht|]. split; [exact I1|]. split; [exact I2|exact Gp].
+    - apply (proj1 (forall_mine _ toi post)). exact G2.
+    - intros a p b Eq Hp. apply Cov. exact (Cl a p b Eq Hp).
+    - apply Cov. exact Rec. }
+  destruct (recv_run E parse_fdt cfg recv0 (map (fun p => RvPush p now) (pre ++ pf :: post)) ctx0) as [[xs r] c].
+  destruct D' as (_ & _ & Dn). eapply mdone_delivered; eassumption.
+Qed.
+
+Theorem rs_late_among_others_delivers_any_flag_before_fdt E parse_fdt cfg oti content rep toi md5 now id foti d inst pre pf post :
+  let L := lenN_ content in
+  rs_scheme_ok oti L -> rs_blocks_ok oti L -> toi <> 0 -> parse_fdt d = Some inst ->
+  fdt_entry_for (fi_files inst) (fi_oti inst) toi oti L md5 ->
+  writer_accepts E toi -> writes_succeed E toi -> md5_good E content md5 ->
+  rs_oracle_mds E oti content rep toi ->
+  rs_mem_need oti L <= cf_max_cache cfg -> nb_blocks_of oti L <= 4097 ->
+  Forall (fun p => a_toi p <> 0) pre ->
+  fdt_copy cfg inst now id foti d pf ->
+  Forall (fun p => a_toi p = 0 -> fdt_copy cfg inst now id foti d p) post ->
+  let mine1 := filter (fun p => a_toi p =? toi) pre in
+  let mine2 := filter (fun p => a_toi p =? toi) post in
+  Forall (fun p => rs_genuine_pkt oti content rep p = true) (mine1 ++ mine2) ->
+  Forall (fun p => a_oti p = Some (oti, L) /\ a_cenc p = None) mine1 ->
+  close_flag_ok_after (rs_recoverable oti L) mine1 mine2 ->
+  rs_recoverable oti L (mine1 ++ mine2) = true ->
+  let '(_, r, c) := recv_run E parse_fdt cfg recv0 (map (fun p => RvPush p now) (pre ++ pf :: post)) ctx0 in
+  multi_delivered cfg inst content toi r c.
+Proof.
+  intros L (Hrsf & He & Hb & HL & Hu) Hrs Htoi Hparse (f & F1 & F2 & F3 & F4 & F5) Hacc Hwr Hmd5 Hor Hmax Hn Fz Hpf F0 m1 m2 G Ib Cl Rec.
+  destruct (rs_is_cls oti Hrsf) as [Hcls Hfec].
+  destruct (partition_of oti L) as [[[al as_] nal] n] eqn:Hpart.
+  pose proof (top_sound E oti content rep toi al as_ nal n Hcls He Hb HL Hpart (rs_oracle_mds_sound _ _ _ _ _ Hor)) as Hsound.
+  pose proof (top_mds E oti content rep toi al as_ nal n Hcls Hpart Hor) as HM.
+  pose proof Hpart as Hpart'. unfold partition_of in Hpart'.
+  assert (Hnb : nb_blocks_of oti L = n) by (unfold nb_blocks_of; rewrite Hpart'; reflexivity).
+  assert (Nc : C02RS.Nice2 E oti content (toi, 0%nat) md5 (cf_max_cache cfg) al as_ nal n).
+  { split; [split; [exact Hwr|exact Hmd5]|]. split; [rewrite M_mem_need; exact Hmax|]. split; [rewrite <- Hnb; exact Hn|].
+    apply (rs_blocks_ok_spec oti L); assumption. }
+  assert (Cov : forall l, rs_recoverable oti L l = true -> C02RS.covered oti al as_ nal n (map (rs_pid oti) l)).
+  { intros l H. apply (recoverable_covered_rs oti); [exact Hcls|]. unfold rs_recoverable, source_ks in H. rewrite Hpart in H. exact H. }
+  assert (G' : Forall (genr oti content rep al as_ nal n) (m1 ++ m2)).
+  { pose proof (rs_genuine_pkt_spec oti content rep al as_ nal n (m1 ++ m2) Hpart G) as G1. eapply Forall_impl; [|exact G1].
+    intros p Hp. split; [exact Hp|apply rs_sized_trivial; exact Hrsf]. }
+  apply Forall_app in G'. destruct G' as [G1 G2].
+  assert (Zf : a_toi pf = 0) by (destruct Hpf as ((Hz & _) & _); exact Hz).
+  pose proof (rs_late_core_any_flag E parse_fdt cfg oti content rep toi md5 al as_ nal n now Hfec He Hb HL Hu Hpart' Htoi Hsound HM Nc Hacc
+                id inst f F1 F2 F3 F4 F5 foti d Hparse pre pf post Fz) as D.
+  assert (D' : let '(_, r, c) := recv_run E parse_fdt cfg recv0 (map (fun p => RvPush p now) (pre ++ pf :: post)) ctx0 in
+               RI r c /\ EDisj r /\ MDone cfg content toi f r c).
+  { apply D; try assumption.
+    - apply (pktpre_of_mine _ (genr oti content rep al as_ nal n) toi oti L pre G1 Ib).
+      intros p Ht I1 I2 Gp. split; [exact Ht|]. split; [exact I1|]. split; [exact I2|exact Gp].
+    - apply (proj1 (forall_mine _ toi post)). exact G2.
+    - intros a p b Eq Hp. apply Cov. exact (Cl a p b Eq Hp).
+    - apply Cov. exact Rec. }
+  destruct (recv_run E parse_fdt cfg recv0 (map (fun p => RvPush p now) (pre ++ pf :: post)) ctx0) as [[xs r] c].
+  destruct D' as (_ & _ & Dn). eapply mdone_delivered; eassumption.
+Qed.
+
+Theorem fq_late_among_others_delivers_any_flag_before_fdt E parse_fdt cfg oti content enc toi md5 now id foti d inst pre pf post :
+  let L := lenN_ content in
+  fq_scheme_ok oti L -> fq_blocks_ok oti L -> toi <> 0 -> parse_fdt d = Some inst ->
+  fdt_entry_for (fi_files inst) (fi_oti inst) toi oti L md5 ->
+  writer_accepts E toi -> writes_succeed E toi -> md5_good E content md5 ->
+  fq_oracle_sound E oti content enc toi -> fq_oracle_complete E oti content enc toi ->
+  L <= cf_max_cache cfg -> nb_blocks_of oti L <= 4097 ->
+  Forall (fun p => a_toi p <> 0) pre ->
+  fdt_copy cfg inst now id foti d pf ->
+  Forall (fun p => a_toi p = 0 -> fdt_copy cfg inst now id foti d p) post ->
+  let mine1 := filter (fun p => a_toi p =? toi) pre in
+  let mine2 := filter (fun p => a_toi p =? toi) post in
+  Forall (fun p => fq_genuine_pkt oti content enc p = true) (mine1 ++ mine2) ->
+  Forall (fun p => fq_sized_pkt oti p = true) (mine1 ++ mine2) ->
+  Forall (fun p => a_oti p = Some (oti, L) /\ a_cenc p = None) mine1 ->
+  close_flag_ok_after (fq_recoverable oti L) mine1 mine2 ->
+  fq_recoverable oti L (mine1 ++ mine2) = true ->
+  let '(_, r, c) := recv_run E parse_fdt cfg recv0 (map (fun p => RvPush p now) (pre ++ pf :: post)) ctx0 in
+  multi_delivered cfg inst content toi r c.
+Proof.
+  intros L (Hf' & He & Hb & HL & Hu) Hsch Htoi Hparse (f & F1 & F2 & F3 & F4 & F5) Hacc Hwr Hmd5 Hos Hoc Hmax Hn Fz Hpf F0 m1 m2 G Zs Ib Cl Rec.
+  destruct (fq_is_fq oti Hf') as (Hcls & Hus & Hfec).
+  destruct (partition_of oti L) as [[[al as_] nal] n] eqn:Hpart.
+  pose proof Hpart as Hpart'. unfold partition_of in Hpart'.
+  pose proof (top_sound_fq E oti content enc toi al as_ nal n Hcls Hus He Hb HL Hu Hpart Hos) as Hsound.
+  pose proof (top_complete_fq E oti content enc toi al as_ nal n Hcls Hus He Hb HL Hu Hpart Hoc) as HM.
+  assert (Hnb : nb_blocks_of oti L = n) by (unfold nb_blocks_of; rewrite Hpart'; reflexivity).
+  assert (Nc : C02RS.Nice2 E oti content (toi, 0%nat) md5 (cf_max_cache cfg) al as_ nal n).
+  { split; [split; [exact Hwr|exact Hmd5]|]. split; [unfold M; rewrite Hus; exact Hmax|]. split; [rewrite <- Hnb; exact Hn|].
+    apply (fq_blocks_ok_spec oti L); assumption. }
+  assert (Cov : forall l, fq_recoverable oti L l = true -> C02RS.covered oti al as_ nal n (map (rs_pid oti) l)).
+  { intros l H. apply (recoverable_covered_fq oti); [exact Hcls|]. unfold fq_recoverable, source_ks in H. rewrite Hpart in H. exact H. }
+  assert (G' : Forall (genr oti content enc al as_ nal n) (m1 ++ m2)).
+  { pose proof (fq_genuine_pkt_spec oti content enc al as_ nal n (m1 ++ m2) Hpart G) as G1.
+    pose proof (fq_sized_pkt_spec oti (m1 ++ m2) Zs) as Z1. rewrite Forall_forall in *. intros p Hp. split; [exact (G1 p Hp)|exact (Z1 p Hp)]. }
+  apply Forall_app in G'. destruct G' as [G1 G2].
+  assert (Zf : a_toi pf = 0) by (destruct Hpf as ((Hz & _) & _); exact Hz).
+  pose proof (rs_late_core_any_flag E parse_fdt cfg oti content enc toi md5 al as_ nal n now Hfec He Hb HL Hu Hpart' Htoi Hsound HM Nc Hacc
+                id inst f F1 F2 F3 F4 F5 foti d Hparse pre pf post Fz) as D.
+  assert (D' : let '(_, r, c) := recv_run E parse_fdt cfg recv0 (map (fun p => RvPush p now) (pre ++ pf :: post)) ctx0 in
+               RI r c /\ EDisj r /\ MDone cfg content toi f r c).
+  { apply D; try assumption.
+    - apply (pktpre_of_mine _ (genr oti content enc al as_ nal n) toi oti L pre G1 Ib).
+      intros p Ht I1 I2 Gp. split; [exact Ht|]. split; [exact I1|]. split; [exact I2|exact Gp].
+    - apply (proj1 (forall_mine _ toi post)). exact G2.
+    - intros a p b Eq Hp. apply Cov. exact (Cl a p b Eq Hp).
+    - apply Cov. exact Rec. }
+  destruct (recv_run E parse_fdt cfg recv0 (map (fun p => RvPush p now) (pre ++ pf :: post)) ctx0) as [[xs r] c].
+  destruct D' as (_ & _ & Dn). eapply mdone_delivered; eassumption.
+Qed.
+Print Assumptions nocode_late_among_others_delivers_any_flag_before_fdt.
+Print Assumptions rs_late_among_others_delivers_any_flag_before_fdt.
+Print Assumptions fq_late_among_others_delivers_any_flag_before_fdt.
+
 (* ================= 4. RaptorQ / Raptor, session level (one object; conclusion of C02_fq_session_fdt_late_delivers) ================= *)
 (* ANY genuine packets of the object with EXT_FTI, no EXT_CENC, no close-object flag - what is left of earlier cycles,
    source or repair symbols - then the FDT packet, then a list that holds every source symbol *)
@@ -1190,6 +1493,58 @@ Proof.
     try assumption; try (apply Sub; assumption). apply forall_skipn. exact Ib.
 Qed.
 Print Assumptions fq_session_late_join.
+
+(* D44: the same without the premise "no close-object flag before the FDT packet": the early packets need only carry
+   EXT_FTI and no EXT_CENC *)
+Theorem fq_session_late_join_general_any_flag_before_fdt E parse_fdt cfg oti content enc toi md5 now pf id foti d inst pre pkts :
+  let L := lenN_ content in
+  fq_scheme_ok oti L -> fq_blocks_ok oti L -> toi <> 0 ->
+  fdt_pkt_ok pf id foti d -> parse_fdt d = Some inst -> fdt_live cfg inst pf now ->
+  fdt_entry_for (fi_files inst) (fi_oti inst) toi oti L md5 ->
+  writer_accepts E toi -> writes_succeed E toi -> md5_good E content md5 ->
+  fq_oracle_sound E oti content enc toi -> fq_oracle_complete E oti content enc toi ->
+  L <= cf_max_cache cfg -> nb_blocks_of oti L <= 4097 ->
+  Forall (fun p => a_toi p = toi) (pre ++ pkts) ->
+  Forall (fun p => fq_genuine_pkt oti content enc p = true) (pre ++ pkts) ->
+  Forall (fun p => fq_sized_pkt oti p = true) (pre ++ pkts) ->
+  Forall (fun p => a_oti p = Some (oti, L) /\ a_cenc p = None) pre ->
+  fq_close_flag_ok oti L pkts ->
+  fq_recoverable oti L pkts = true ->
+  let '(_, r, c) := recv_run E parse_fdt cfg recv0 (map (fun p => RvPush p now) (pre ++ pf :: pkts)) ctx0 in
+  session_delivered cfg inst content toi r c.
+Proof.
+  intros L Hsch Hblk Htoi Hpf Hparse Hlive Hent Hacc Hwr Hmd5 Hos Hoc Hmax Hn T G Z Ib Cl Rec.
+  apply (fq_session_fdt_late_delivers_any_flag_before_fdt E parse_fdt cfg oti content enc toi md5 now pf id foti d inst pre pkts);
+    try assumption.
+  - apply close_flag_ok_after_of_tail; [intros l l'; apply fq_recoverable_sup|exact Cl].
+  - apply (fq_recoverable_sup oti L pkts); [apply incl_appr, incl_refl|exact Rec].
+Qed.
+
+Theorem fq_session_late_join_any_flag_before_fdt E parse_fdt cfg oti content enc toi md5 now pf id foti d inst cyc1 cyc2 (j : nat) :
+  let L := lenN_ content in
+  fq_scheme_ok oti L -> fq_blocks_ok oti L -> toi <> 0 ->
+  fdt_pkt_ok pf id foti d -> parse_fdt d = Some inst -> fdt_live cfg inst pf now ->
+  fdt_entry_for (fi_files inst) (fi_oti inst) toi oti L md5 ->
+  writer_accepts E toi -> writes_succeed E toi -> md5_good E content md5 ->
+  fq_oracle_sound E oti content enc toi -> fq_oracle_complete E oti content enc toi ->
+  L <= cf_max_cache cfg -> nb_blocks_of oti L <= 4097 ->
+  Forall (fun p => a_toi p = toi) (cyc1 ++ cyc2) ->
+  Forall (fun p => fq_genuine_pkt oti content enc p = true) (cyc1 ++ cyc2) ->
+  Forall (fun p => fq_sized_pkt oti p = true) (cyc1 ++ cyc2) ->
+  Forall (fun p => a_oti p = Some (oti, L) /\ a_cenc p = None) cyc1 ->
+  fq_close_flag_ok oti L cyc2 ->
+  fq_recoverable oti L cyc2 = true ->
+  let '(_, r, c) := recv_run E parse_fdt cfg recv0 (map (fun p => RvPush p now) (skipn j cyc1 ++ pf :: cyc2)) ctx0 in
+  session_delivered cfg inst content toi r c.
+Proof.
+  intros L Hsch Hblk Htoi Hpf Hparse Hlive Hent Hacc Hwr Hmd5 Hos Hoc Hmax Hn T G Z Ib Cl Rec.
+  assert (Sub : forall P : apkt -> Prop, Forall P (cyc1 ++ cyc2) -> Forall P (skipn j cyc1 ++ cyc2)).
+  { intros P F. apply Forall_app in F. destruct F as [F1 F2]. apply Forall_app. split; [apply forall_skipn; exact F1|exact F2]. }
+  apply (fq_session_late_join_general_any_flag_before_fdt E parse_fdt cfg oti content enc toi md5 now pf id foti d inst (skipn j cyc1) cyc2);
+    try assumption; try (apply Sub; assumption). apply forall_skipn. exact Ib.
+Qed.
+Print Assumptions fq_session_late_join_general_any_flag_before_fdt.
+Print Assumptions fq_session_late_join_any_flag_before_fdt.
 
 (* ================= 5. SEVERAL No-Code objects carouselled under one FDT instance ================= *)
 Lemma merge_in : forall ls pkts, Merge ls pkts -> forall p, In p pkts <-> exists l, In l ls /\ In p l.
@@ -1516,6 +1871,19 @@ Lemma multi_wf_statement : forall cfg toi now id inst gen pid cov pktpre foti d 
            else WFm cfg toi now id inst gen pid cov pktpre foti d ph seen rest)
   /\ (FOk cfg now id inst foti d p <-> fdt_pkt_ok p id foti d /\ fdt_live cfg inst p now).
 Proof. intros. split; [reflexivity|split; reflexivity]. Qed.
+
+(* D44: WFm' = WFm without the flag clause for the packets of the object that precede the first FDT packet *)
+Lemma multi_wf_statement' : forall cfg toi now id inst gen pid cov pktpre foti d ph seen p rest,
+  (WFm' cfg toi now id inst gen pid cov pktpre foti d ph seen [] <-> ph = true /\ cov seen)
+  /\ (WFm' cfg toi now id inst gen pid cov pktpre foti d ph seen (p :: rest) <->
+      if a_toi p =? 0 then FOk cfg now id inst foti d p /\ WFm' cfg toi now id inst gen pid cov pktpre foti d true seen rest
+      else if a_toi p =? toi
+           then (if ph then gen p /\ (a_close_obj p = true -> cov (pid p :: seen)) else pktpre p)
+                /\ WFm' cfg toi now id inst gen pid cov pktpre foti d ph (pid p :: seen) rest
+           else WFm' cfg toi now id inst gen pid cov pktpre foti d ph seen rest)
+  /\ (forall evs, WFm cfg toi now id inst gen pid cov pktpre foti d ph seen evs ->
+                  WFm' cfg toi now id inst gen pid cov pktpre foti d ph seen evs).
+Proof. intros. split; [reflexivity|split; [reflexivity|]]. intros evs. apply wfm_weaken. Qed.
 
 Lemma multi_late_statements :
   (forall E cfg inst o, car_obj_ok E cfg inst o <->
